@@ -7,7 +7,9 @@ Line protocol for C17 (see harness/c17.py).  The driver holds one system (design
   reset                                              -> ok
   ds <name:size:lb:ub[:i]> ...                       -> ok        (lb/ub: comma lists of rats; `:i` = integer variable)
   disc <D> <in:size,...|[]> <linear outs|[]> [def.<in>=<rats>] [sto=d|s|m] ...   -> ok
-        (sto: the discipline hands its Jacobian blocks over dense / sparse built from the values / some of each)
+        (sto: the discipline hands its Jacobian blocks over dense / sparse built from the values / some of each;
+         an `opt=<in,...>` token names the inputs the grammar does not require: informational, the model's inputs are
+         the grammar names, required or not, and no answer depends on it)
   out <D> <o> const=<rats> [lin.<in>=<rows>] [quad.<in>=<rows>] ...   -> ok   (rows: r;r;..)
   names mdf|idf|dopt                                 -> variable names | E:value
   eval idf <0|1 normalize> f <o1,o2,..> x=<rats> [a=<rat>] [pos=1]     -> v=<rats> j=<rows>
